@@ -1002,7 +1002,9 @@ static bool _is_in_tree(const TickitWindow *tree, const TickitWindow *win)
   return false;
 }
 
-/* Forget every queued request about win or any window below it */
+/* Forget what the root window remembers about win or any window below it:
+ * queued restacking requests and the drag source
+ */
 static void _purge_hierarchy_changes(TickitWindow *win)
 {
   const TickitWindow *top = win;
@@ -1377,12 +1379,39 @@ restore:
   return true;
 }
 
+/* Event handlers may close or destroy any window, including the siblings of the
+ * one they run on. To offer an event to each child in turn, walk a copy of the
+ * list of children and check, by address only, that each entry still is a child
+ * before touching it.
+ */
+static size_t _copy_children(TickitWindow *win, TickitWindow ***childrenp)
+{
+  size_t n = tickit_window_children(win);
+  TickitWindow **children = NULL;
+
+  if(n && !(children = malloc(n * sizeof(TickitWindow *))))
+    n = 0;
+
+  *childrenp = children;
+  return tickit_window_get_children(win, children, n);
+}
+
+static bool _is_child(const TickitWindow *win, const TickitWindow *child)
+{
+  for(const TickitWindow *c = win->first_child; c; c = c->next)
+    if(c == child)
+      return true;
+
+  return false;
+}
+
 static int _handle_key(TickitWindow *win, TickitKeyEventInfo *info)
 {
   if(!win->is_visible)
     return 0;
 
   int ret = 1;
+  TickitWindow **children = NULL;
   tickit_window_ref(win);
 
   if(win->first_child && win->first_child->steal_input)
@@ -1397,9 +1426,12 @@ static int _handle_key(TickitWindow *win, TickitKeyEventInfo *info)
     goto done;
 
   // Last-ditch attempt to spread it around other children
-  TickitWindow *next;
-  for(TickitWindow *child = win->first_child; child; child = next) {
-    next = child->next;
+  size_t n_children = _copy_children(win, &children);
+  for(size_t i = 0; i < n_children; i++) {
+    TickitWindow *child = children[i];
+
+    if(!_is_child(win, child))
+      continue;
 
     if(child == win->focused_child)
       continue;
@@ -1411,6 +1443,7 @@ static int _handle_key(TickitWindow *win, TickitKeyEventInfo *info)
   ret = 0;
   /* fallthough */
 done:
+  free(children);
   tickit_window_unref(win);
 
   return ret;
@@ -1424,9 +1457,13 @@ static TickitWindow *_handle_mouse(TickitWindow *win, TickitMouseEventInfo *info
   TickitWindow *ret;
   tickit_window_ref(win);
 
-  TickitWindow *next;
-  for(TickitWindow *child = win->first_child; child; child = next) {
-    next = child->next;
+  TickitWindow **children;
+  size_t n_children = _copy_children(win, &children);
+  for(size_t i = 0; i < n_children; i++) {
+    TickitWindow *child = children[i];
+
+    if(!_is_child(win, child))
+      continue;
 
     int child_line = info->line - child->rect.top;
     int child_col  = info->col  - child->rect.left;
@@ -1453,6 +1490,7 @@ static TickitWindow *_handle_mouse(TickitWindow *win, TickitMouseEventInfo *info
   ret = NULL;
   /* fallthrough */
 done:
+  free(children);
   tickit_window_unref(win);
 
   return ret;
